@@ -5,3 +5,6 @@ cd "$(dirname "$0")/checker"
 export GOFLAGS=-mod=vendor GOPROXY=off GOSUMDB=off GOTOOLCHAIN=local GOWORK=off
 mkdir -p ../bin
 go build -o ../bin/gunyucheck ./cmd/gunyucheck
+# development aids used by the thorough tier's neutral controls (behaviour-preserving rewrites of a scratch copy)
+go build -o ../bin/renamelocals ./cmd/renamelocals
+go build -o ../bin/neutral ./cmd/neutral
